@@ -135,16 +135,17 @@ type harness struct {
 	regMax     time.Duration
 	evMax      time.Duration
 
-	mu      sync.Mutex // std mutex: never held across a sleep or blocking call
-	seq     int64
-	frozen  bool
-	ch      [nChans]*chState
-	evs     []*evRec
-	evByObj map[channel.AdjudicatorEvent]*evRec
-	calls   []*callRec
-	states  []uint64
-	evals   int64
-	skipped int64
+	mu        sync.Mutex // std mutex: never held across a sleep or blocking call
+	seq       int64
+	frozen    bool
+	completed bool
+	ch        [nChans]*chState
+	evs       []*evRec
+	evByObj   map[channel.AdjudicatorEvent]*evRec
+	calls     []*callRec
+	states    []uint64
+	evals     int64
+	skipped   int64
 
 	wg sync.WaitGroup // asynchronous driver actions
 	bg sync.WaitGroup // self-caused event deliveries
@@ -161,9 +162,12 @@ func (h *harness) indexOf(id channel.ID) int {
 	return -1
 }
 
-// tick numbers a harness-observable point. Caller holds h.mu.
-func (h *harness) tick() int64 {
+// tick numbers a harness-observable point and writes it into the trace in the
+// same critical section, so that trace order and numbering agree. Caller
+// holds h.mu (the simulator's own lock nests inside, never the other way).
+func (h *harness) tick(actor, typ, detail string) int64 {
 	h.seq++
+	h.s.Event(actor, typ, detail)
 	return h.seq
 }
 
@@ -212,7 +216,7 @@ func sigsEqual(a, b []wallet.Sig) bool {
 func (h *harness) handlerDone(sub *subscription) {
 	h.mu.Lock()
 	if sub.cur != nil && !h.frozen {
-		sub.cur.tDone = h.tick()
+		sub.cur.tDone = h.tick(chName(sub.k), "adj.next", "")
 	}
 	sub.cur = nil
 	h.mu.Unlock()
@@ -222,38 +226,33 @@ func (h *harness) dequeued(sub *subscription, e channel.AdjudicatorEvent) {
 	h.mu.Lock()
 	r := h.evByObj[e]
 	if r != nil && !h.frozen {
-		r.tDeq = h.tick()
+		r.tDeq = h.tick(chName(sub.k), "adj.deliver", fmt.Sprintf("%s v%d", kindNames[r.kind], r.ver))
 		sub.cur = r
 	}
 	h.mu.Unlock()
-	if r != nil {
-		h.note(sub.k, "adj.deliver", fmt.Sprintf("%s v%d", kindNames[r.kind], r.ver))
-	}
 }
 
 func (h *harness) callStart(n int, req channel.AdjudicatorReq, subs []channel.SignedState) *callRec {
 	c := &callRec{n: n, params: req.Params, tx: req.Tx, subs: append([]channel.SignedState(nil), subs...)}
 	h.mu.Lock()
-	c.start = h.tick()
+	c.start = h.tick("adj", "register", describeCall(h, c))
 	if !h.frozen {
 		h.calls = append(h.calls, c)
 	}
 	h.mu.Unlock()
-	h.s.Event("adj", "register", describeCall(h, c))
 	return c
 }
 
 func (h *harness) callEnd(c *callRec, ok bool) {
 	h.mu.Lock()
-	c.end = h.tick()
+	typ := "register.ok"
+	if !ok {
+		typ = "register.fail"
+	}
+	c.end = h.tick("adj", typ, fmt.Sprintf("#%d", c.n))
 	c.ok = ok
 	h.snapshot()
 	h.mu.Unlock()
-	if ok {
-		h.s.Event("adj", "register.ok", fmt.Sprintf("#%d", c.n))
-	} else {
-		h.s.Event("adj", "register.fail", fmt.Sprintf("#%d", c.n))
-	}
 }
 
 func describeCall(h *harness, c *callRec) string {
@@ -291,7 +290,11 @@ func (h *harness) inject(k, kind int, ver uint64, obj channel.AdjudicatorEvent, 
 		h.mu.Unlock()
 		return false
 	}
-	r.tInj = h.tick()
+	src := "inject"
+	if self {
+		src = "self-event"
+	}
+	r.tInj = h.tick(chName(k), "adj."+src, fmt.Sprintf("%s v%d", kindNames[kind], ver))
 	h.evs = append(h.evs, r)
 	h.evByObj[obj] = r
 	ok := true
@@ -304,11 +307,6 @@ func (h *harness) inject(k, kind int, ver uint64, obj channel.AdjudicatorEvent, 
 	if !ok {
 		panic("watcher engine: subscription queue overflow")
 	}
-	src := "inject"
-	if self {
-		src = "self-event"
-	}
-	h.note(k, "adj."+src, fmt.Sprintf("%s v%d", kindNames[kind], ver))
 	return true
 }
 
@@ -385,13 +383,12 @@ func (h *harness) doStart(i int, st *kernel.Step, k int) {
 		v0 = 0
 	}
 	c.started, c.startInFlight = true, true
-	rec := &opRec{inv: h.tick()}
+	rec := &opRec{inv: h.tick(chName(k), "start", fmt.Sprintf("v%d", v0))}
 	c.starts = append(c.starts, rec)
 	tx := mkTx(k, v0, nil)
 	c.pubs = append(c.pubs, &pubRec{ver: v0, tx: tx, enc: gen.EncodeState(tx.State), inv: rec.inv, ret: rec.inv})
 	c.next = v0 + 1
 	h.mu.Unlock()
-	h.note(k, "start", fmt.Sprintf("v%d", v0))
 	h.s.Count("op.start", 1)
 
 	var pub watcher.StatesPub
@@ -407,7 +404,7 @@ func (h *harness) doStart(i int, st *kernel.Step, k int) {
 		}
 	}()
 	h.mu.Lock()
-	rec.ret = h.tick()
+	rec.ret = h.tick(chName(k), "start.ret", errText(err))
 	rec.err = err
 	c.startInFlight = false
 	okStart := err == nil && rec.panicked == "" && pub != nil && sub != nil
@@ -422,7 +419,6 @@ func (h *harness) doStart(i int, st *kernel.Step, k int) {
 	} else if err != nil {
 		h.s.Fail("C05.start-failed", "StartWatching(%s) failed: %v", chName(k), err)
 	}
-	h.note(k, "start.ret", fmt.Sprint(err))
 	if okStart {
 		go h.reader(k, sub)
 	}
@@ -434,18 +430,16 @@ func (h *harness) reader(k int, sub watcher.AdjudicatorSub) {
 	for e := range sub.EventStream() {
 		h.mu.Lock()
 		if !h.frozen {
-			h.ch[k].relays = append(h.ch[k].relays, relayRec{obj: e, t: h.tick()})
+			h.ch[k].relays = append(h.ch[k].relays, relayRec{obj: e, t: h.tick(chName(k), "relay", fmt.Sprintf("%T v%d", e, e.Version()))})
 			h.snapshot()
 		}
 		h.mu.Unlock()
-		h.note(k, "relay", fmt.Sprintf("%T v%d", e, e.Version()))
 	}
 	h.mu.Lock()
 	if !h.frozen {
-		h.ch[k].streamClosed = h.tick()
+		h.ch[k].streamClosed = h.tick(chName(k), "stream-closed", "")
 	}
 	h.mu.Unlock()
-	h.note(k, "stream-closed", "")
 }
 
 func contains(l []int, x int) bool {
@@ -505,12 +499,11 @@ func (h *harness) doPub(i int, st *kernel.Step, k int) {
 		c.locked = locked
 	}
 	tx := mkTx(k, ver, locked)
-	rec := &pubRec{ver: ver, tx: tx, enc: gen.EncodeState(tx.State), inv: h.tick(), locked: locked}
+	rec := &pubRec{ver: ver, tx: tx, enc: gen.EncodeState(tx.State), inv: h.tick(chName(k), "publish", fmt.Sprintf("v%d locked=%v", ver, locked)), locked: locked}
 	c.pubs = append(c.pubs, rec)
 	c.pubInFlight++
 	pub := c.pub
 	h.mu.Unlock()
-	h.note(k, "publish", fmt.Sprintf("v%d locked=%v", ver, locked))
 	h.s.Count("op.publish", 1)
 	var pan string
 	func() {
@@ -518,7 +511,7 @@ func (h *harness) doPub(i int, st *kernel.Step, k int) {
 		_ = pub.Publish(context.Background(), tx)
 	}()
 	h.mu.Lock()
-	rec.ret = h.tick()
+	rec.ret = h.tick(chName(k), "publish.ret", "")
 	c.pubInFlight--
 	h.snapshot()
 	h.mu.Unlock()
@@ -582,11 +575,10 @@ func (h *harness) doStop(i int, st *kernel.Step, k int) {
 	if k > 0 {
 		c.archived = contains(h.ch[0].locked, k)
 	}
-	rec := &opRec{inv: h.tick()}
+	rec := &opRec{inv: h.tick(chName(k), "stop", "")}
 	c.stops = append(c.stops, rec)
 	c.stopInFlight++
 	h.mu.Unlock()
-	h.note(k, "stop", "")
 	h.s.Count("op.stop", 1)
 
 	var err error
@@ -595,7 +587,11 @@ func (h *harness) doStop(i int, st *kernel.Step, k int) {
 		err = h.w.StopWatching(context.Background(), staticIDs[k])
 	}()
 	h.mu.Lock()
-	rec.ret = h.tick()
+	if rec.panicked != "" {
+		rec.ret = h.tick(chName(k), "stop.panic", rec.panicked)
+	} else {
+		rec.ret = h.tick(chName(k), "stop.ret", errText(err))
+	}
 	rec.err = err
 	c.stopInFlight--
 	if err == nil && rec.panicked == "" {
@@ -605,10 +601,18 @@ func (h *harness) doStop(i int, st *kernel.Step, k int) {
 	h.mu.Unlock()
 	if rec.panicked != "" {
 		h.s.Fail("C05.panic@StopWatching", "StopWatching(%s) panicked: %s", chName(k), rec.panicked)
-		h.note(k, "stop.panic", rec.panicked)
-		return
 	}
-	h.note(k, "stop.ret", fmt.Sprint(err))
+}
+
+// errText keeps process-random channel IDs out of the trace.
+func errText(err error) string {
+	switch {
+	case err == nil:
+		return "nil"
+	case local.IsErrSubChannelsPresent(err):
+		return "refused: sub-channels present"
+	}
+	return "error: " + err.Error()
 }
 
 // snapshot records the abstract watcher state. Caller holds h.mu.
@@ -750,12 +754,29 @@ func runScenario(t *testing.T, sc *kernel.Scenario, trace bool) *kernel.Result {
 			}
 		}
 		h.wg.Wait()
-		h.quiesce()
-		h.bg.Wait()
+		quiet := h.quiesce()
+		if quiet {
+			h.bg.Wait()
+		}
 		h.check()
+		if !quiet {
+			// reported only if no oracle explains it (first violation wins)
+			s.Fail("C05.no-quiescence", "the watcher was still producing observable events 2 simulated seconds after the last action")
+		}
+		h.mu.Lock()
+		h.completed = true
+		h.mu.Unlock()
 		h.cleanup()
 	})
 	if h != nil {
+		h.mu.Lock()
+		completed := h.completed
+		h.mu.Unlock()
+		if !completed && res.Violation == nil {
+			// the bubble ended with a deadlock panic before the history was over:
+			// every goroutine (driver included) was blocked for good
+			res.Violation = &kernel.Violation{Check: "C05.deadlock", Detail: "all goroutines of the run were blocked for good before the history ended (a watcher call never returned)", Step: -1}
+		}
 		h.mu.Lock()
 		res.States = h.states
 		res.Evals = h.evals
@@ -770,8 +791,8 @@ func runScenario(t *testing.T, sc *kernel.Scenario, trace bool) *kernel.Result {
 // quiesce waits until nothing harness-observable has happened for 50
 // simulated milliseconds (the longest silent stretch inside the watcher is a
 // handful of 1 ms waits for pending transactions).
-func (h *harness) quiesce() {
-	for round := 0; round < 200; round++ {
+func (h *harness) quiesce() bool {
+	for round := 0; round < 40; round++ {
 		h.mu.Lock()
 		before := h.seq
 		h.mu.Unlock()
@@ -780,10 +801,10 @@ func (h *harness) quiesce() {
 		same := h.seq == before
 		h.mu.Unlock()
 		if same {
-			return
+			return true
 		}
 	}
-	h.s.Fail("C05.no-quiescence", "the watcher was still producing observable events 10 simulated seconds after the last action")
+	return false
 }
 
 // cleanup de-registers whatever is still watched so that the bubble can end
